@@ -331,10 +331,25 @@ def gram(lat):
     return lat @ lat.T
 
 
-def project(calc, orig, back, species_of, mags=None, length_scale=1.0):
+def ncl_vector(m):
+    """realisation of a moment token as a non-collinear moment"""
+    return np.array([float(m), -0.5 * m, 0.25 * m])
+
+
+def moment_token(v):
+    v = np.ravel(np.asarray(v, dtype=float))
+    m = int(round(float(v[0])))
+    if len(v) == 3 and np.abs(v - ncl_vector(m)).max() > 1e-4:
+        return 99
+    if len(v) == 1 and abs(v[0] - m) > 1e-4:
+        return 99
+    return m
+
+
+def project(calc, orig, back, species_of, mags=None, length_scale=1.0, tol=None):
     """orig: PhonopyAtoms written; back: PhonopyAtoms read back.
     -> dict(atoms=[[sp, id, mom]], latticeOK, frameOK, margin)"""
-    tol = TOL[calc]
+    tol = tol or TOL[calc]
     G0, G1 = gram(orig.cell), gram(back.cell)
     scale = np.trace(G0) / 3.0
     dlat = float(np.abs(G0 - G1).max() / scale)
@@ -359,7 +374,7 @@ def project(calc, orig, back, species_of, mags=None, length_scale=1.0):
         sp = species_of.get(sym, 0)
         mom = 0
         if bm is not None:
-            mom = int(round(float(np.ravel(bm[k])[0])))
+            mom = moment_token(bm[k])
         atoms.append([sp, pid, mom])
     return dict(atoms=atoms, latticeOK=bool(lat_ok), frameOK=frame_ok,
                 margin=max(worst, dlat / tol["lat"] if lat_ok else 0.0))
@@ -487,4 +502,71 @@ def emit_output(calc, name, cell, forces, supercell_lattice=None):
         raise KeyError(calc)
     with open(name, "w") as fh:
         fh.write("\n".join(L) + "\n")
+    return name
+
+
+# ---------------------------------------------------------------------------
+# WIEN2k case.scf (forces of non-equivalent atoms + their positions)
+# ---------------------------------------------------------------------------
+def stabiliser_orbits(symbols, frac, point_ops, tol=1e-7):
+    """Orbits of the atoms of a (displaced) cell under its own space group,
+    computed by brute force: every rotation W of `point_ops` (integer matrices in
+    the cell's lattice coordinates) with every translation that maps atom 0 onto
+    an atom of the same species is tested on the whole configuration.
+    Returns (orbit id per atom, number of operations found)."""
+    x = np.asarray(frac, dtype=float)
+    n = len(x)
+    syms = list(symbols)
+    parent = list(range(n))
+
+    def find(i):
+        while parent[i] != i:
+            parent[i] = parent[parent[i]]
+            i = parent[i]
+        return i
+    nops = 0
+    for W in point_ops:
+        W = np.asarray(W, dtype=float)
+        wx = x @ W.T
+        for j in range(n):
+            if syms[j] != syms[0]:
+                continue
+            t = x[j] - wx[0]
+            y = wx + t
+            img = []
+            for i in range(n):
+                d = x - y[i]
+                d -= np.rint(d)
+                k = int(np.argmin(np.abs(d).max(axis=1)))
+                if np.abs(d[k]).max() > tol or syms[k] != syms[i]:
+                    img = None
+                    break
+                img.append(k)
+            if img is None or len(set(img)) != n:
+                continue
+            nops += 1
+            for i, k in enumerate(img):
+                parent[find(i)] = find(k)
+    return [find(i) for i in range(n)], nops
+
+
+def emit_wien2k_scf(name, supercell_lattice, frac, forces_cart, listed):
+    """:POS / :FGL lines for the atoms `listed` (indices, in this order).  Forces are
+    written as components along the normalised lattice vectors - phonopy's reading
+    of :FGL (trusted; for orthogonal lattices these are the Cartesian components)."""
+    L = np.asarray(supercell_lattice, dtype=float)
+    red = L / np.linalg.norm(L, axis=1)[:, None]
+    comp = np.asarray(forces_cart, dtype=float) @ np.linalg.inv(red)
+    lines = []
+    for m, a in enumerate(listed):
+        p = np.asarray(frac[a], dtype=float) % 1.0
+        head = ":POS%03d: ATOM%5d POSITION = " % (m + 1, -(m + 1))
+        assert len(head) == 30, len(head)
+        lines.append(head + "%7.5f %7.5f %7.5f  MULTIPLICITY =  1  ZZ= 1.000" % tuple(p))
+    lines.append("")
+    for m, a in enumerate(listed):
+        head = (":FGL%03d:%4d.ATOM" % (m + 1, m + 1)).ljust(29)
+        lines.append(head + "%16.9f%16.9f%16.9f total forces" % tuple(comp[a]))
+    with open(name, "w") as fh:
+        fh.write("\n".join(lines) + "\n")
     return name
